@@ -188,7 +188,7 @@ class DuplicateKeyError(ErrorNode):
 
     def print_error(self, indent: str = "", inside_sum: bool = False, file: t.TextIO = sys.stdout):
         assert not inside_sum
-        print(f"Duplicate key {self.key} (same as {'/'.join(self.aliases)})", file=file)
+        print(f"Duplicate key {_show(self.key)} (same as {'/'.join(map(_show, self.aliases))})", file=file)
 
 
 @dataclasses.dataclass
@@ -222,7 +222,11 @@ class ProductErrorNode(ErrorNode):
             child.print_error(f"{indent}  ", file=file)
 
         # (sets of names: list them in a fixed order, so the message doesn't depend on the interpreter's hash seed)
-        for field in sorted(field if isinstance(field, str) else '/'.join(field) for field in self.missing):
+        # (a name which is a sequence of strings lists the aliases of one field; names needn't be strings otherwise)
+        for field in sorted(
+            _show(field) if isinstance(field, (str, bytes)) or not isinstance(field, t.Sequence) else '/'.join(map(_show, field))
+            for field in self.missing
+        ):
             print(f"{indent}  Missing required field '{field}'", file=file)
 
         for field in sorted(map(_show, self.extra)):
